@@ -222,9 +222,7 @@ class SpecEval(object):
         nm = n.id
         if nm in ctx.bound:
             return ctx.bound[nm]
-        if nm == 'result':
-            if ctx.result is None:
-                raise Unsupported('no result here')
+        if nm == 'result' and ctx.result is not None:
             return ctx.result
         if nm in ctx.extra:
             return ctx.extra[nm]
@@ -244,6 +242,8 @@ class SpecEval(object):
             return mk_bool(False)
         if nm == 'inf':
             return mk_float(float('inf'))
+        if nm == 'NAME_':
+            return SV(INT, z3.Int('tok_NAME'))
         raise Unsupported('spec name %s is not bound' % nm)
 
     def ev_Attribute(self, n, ctx):
